@@ -117,6 +117,8 @@ func checkC10(c *fw.Ctx) {
 	checkAuthDifference(c)
 	checkV1Order(c)
 	checkVersionMatrix(c, "9 version-columns", setOf("stateResAlgorithm"))
+	// the iterative auth checks see, for every event, only that event's state (shared with C09.5)
+	checkResolutionRefresh(c)
 }
 
 func checkAlgoSelection(c *fw.Ctx) {
@@ -275,6 +277,32 @@ func checkComparators(c *fw.Ctx) {
 				}
 			}
 			c.Check(ok, rule, spec+": "+f+" comes from "+strings.Trim(want[f], ".("), c.P.Pos(fn.Pos()), "", "sort key "+f+" is not filled from "+want[f])
+		}
+	}
+	// the power sort key ranks every room creator (create sender and additional_creators) as
+	// infinite power in privileged-creator rooms, as the authorisation rules do
+	if fn := mustFunc(c, rule, "(*stateResolverV2).getPowerLevelFromAuthEvents"); fn != nil {
+		if tbl, err := fw.ExtractTable(fn, 0); err != nil {
+			c.Undecided(rule, "getPowerLevelFromAuthEvents", err.Error())
+		} else {
+			n := 0
+			for _, r := range tbl.Rows {
+				if r.Outcome != "value:*global:gmsl.CreatorPowerLevel" {
+					continue
+				}
+				n++
+				okAll := len(r.Cond) > 0
+				for _, term := range r.Cond {
+					inSet := termHas(term, lit{[]string{"gmsl.CreatorsFromCreateEvent(", ".SenderID(param:event)", " == "}, true}) ||
+						termHas(term, lit{[]string{"slices.Contains(gmsl.CreatorsFromCreateEvent(", ".SenderID(param:event)"}, true})
+					priv := termHas(term, lit{[]string{".PrivilegedCreators("}, true})
+					if !inSet || !priv {
+						okAll = false
+					}
+				}
+				c.Check(okAll, rule, "power sort key: a sender gets the creator level iff the version privileges creators and the sender is one of CreatorsFromCreateEvent(create)", c.P.Pos(fw.InstrPos(r.Ret)), "", "CreatorPowerLevel is returned under ["+r.Cond.String()+"]: the test is not membership of the sender in the create event's creator set (additional creators then sort by their power-levels entry)")
+			}
+			c.Min(rule+" creator-level returns in the power sort key", n, 1)
 		}
 	}
 	// position/steps are taken from the right results of getFirstPowerLevelMainlineEvent
